@@ -35,8 +35,8 @@ Open Scope nat_scope.
 From LV Require Import Base.ListAux Goose.ErrorLog Goose.CorrC19.
 """
 
-POS_KEY = {"ka": "x", "kb": "y"}
-INIT = {"x": 500, "y": 600}
+POS_KEY = {"ka": "x", "kb": "y", "kc": "z"}
+INIT = {"x": 500, "y": 600, "z": 700}
 BITS = ["get_error_log(False)", "get_error_log(True)", "Summary (sample_info / error_summary / error_df)",
         "get_samples", "get_posterior_samples"]
 _lib: dict = {}
@@ -82,10 +82,13 @@ def lib():
 
 
 def classes_of(spec):
+    """kernel class (= error book) per kernel identifier.  spec["same_book"]: every kernel is of the SAME class, so
+    several kernels of one run report the same (error code, message) pairs (two NUTS kernels for two blocks, ...)"""
     L = lib()
     if spec["kind"] == "engine":
-        return {"ka": L["ck"].ScriptedKernelA, "kb": L["ck"].ScriptedKernelB}
-    return {"ka": BookP, "kb": BookQ}
+        A, B = L["ck"].ScriptedKernelA, L["ck"].ScriptedKernelB
+        return {"ka": A, "kb": A, "kc": A} if spec.get("same_book") else {"ka": A, "kb": B, "kc": A}
+    return {"ka": BookP, "kb": BookP, "kc": BookP} if spec.get("same_book") else {"ka": BookP, "kb": BookQ, "kc": BookP}
 
 
 def books_of(spec):
@@ -137,19 +140,19 @@ def run_engine(spec):
     C, T = spec["chains"], total_T(spec)
     dt = spec.get("dtype")
     jdt = {"float64": jnp.float64, "int32": jnp.int32}.get(dt, jnp.float32)
-    state = {"x": jnp.asarray([init_value(spec, "x", c) for c in range(C)], dtype=jdt),
-             "y": jnp.asarray([init_value(spec, "y", c) for c in range(C)], dtype=jdt),
-             "cid": jnp.arange(C, dtype=jnp.int32)}
+    state = {"cid": jnp.arange(C, dtype=jnp.int32)}
+    for key in ("x", "y", "z"):
+        state[key] = jnp.asarray([init_value(spec, key, c) for c in range(C)], dtype=jdt)
     stamp = None
     if dt == "float64":
         stamp = lambda cid, t: (1000 * cid + t).astype(jnp.float64) + EPS64
     elif dt == "int32":
         stamp = lambda cid, t: (BIG32 + 2 * (1000 * cid + t)).astype(jnp.int32)
-    for kid in ("ka", "kb"):
+    for kid in ("ka", "kb", "kc"):
         tab = spec["tabs"].get(kid) or [[0] * T for _ in range(C)]
         # the kernel indexes by EpochState.time; the initial-values epoch occupies time 0
         state["tab_" + kid] = jnp.asarray([[0] + list(r) for r in tab], dtype=jnp.int32)
-    mk = {"ka": L["ck"].ScriptedKernelA, "kb": L["ck"].ScriptedKernelB}
+    mk = classes_of(spec)
     kernels = [mk[k](POS_KEY[k], "tab_" + k, k, stamp) for k in spec["kernels"]]
     model = gs.DictInterface(lambda st: jnp.float32(0.0))
     cfgs = [L["EpochConfig"](L["EpochType"].INITIAL_VALUES, 1, 1, None)] + [
@@ -701,6 +704,11 @@ def fixed_specs():
         # undocumented code
         {"kind": "synth", "name": "fixed-undoc", "stratum": "synth/fixed/undocumented", "chains": 1, "kernels": ["kb"], "chunk": 1, "seed": 6,
          "sched": [[1, 2, 1], [4, 2, 1]], "tabs": {"kb": [[0, 2, 0, 1]]}},
+        # two kernels of the same class, both returning code 1 (same (code, message) pair), three chains
+        {"kind": "synth", "name": "fixed-sameclass", "stratum": "synth/fixed/same-class-x2", "chains": 3, "kernels": ["ka", "kb"], "chunk": 2,
+         "seed": 8, "same_book": True, "sched": [[3, 3, 1], [4, 4, 2]],
+         "tabs": {"ka": [[1, 0, 0, 0, 1, 0, 0], [0, 0, 0, 0, 0, 2, 0], [0, 1, 0, 0, 0, 0, 0]],
+                  "kb": [[0, 0, 0, 0, 0, 0, 0], [0, 0, 1, 1, 0, 0, 0], [0, 0, 0, 0, 0, 1, 2]]}},
         # no transition at all
         {"kind": "synth", "name": "fixed-notrans", "stratum": "synth/fixed", "chains": 2, "kernels": ["ka"], "chunk": 1, "seed": 7,
          "sched": [], "tabs": {"ka": [[], []]}},
@@ -718,16 +726,28 @@ def retable(rnd, base, idx, pattern, undocumented=False):
     spec = {k: (json.loads(json.dumps(v)) if k != "tabs" else {}) for k, v in base.items()}
     spec["name"] = f"{base['kind']}-{idx}"
     kernels, kind, C = spec["kernels"], spec["kind"], spec["chains"]
+    books = books_of(spec)
+    same = bool(spec.get("same_book"))
     for kid in kernels:
-        codes = [1, 2, 3] if kind == "engine" else ([1, 2, 3, 90] if kid == "ka" else [1, 3])
-        pat = pattern if (kid == kernels[0] or rnd.random() < 0.6) else rnd.choice(PATTERNS)
+        codes = sorted(c for c in books[kid] if c != 0)
+        pat = pattern if (same or kid == kernels[0] or rnd.random() < 0.6) else rnd.choice(PATTERNS)
         spec["tabs"][kid] = mk_tab(rnd, spec, pat, codes)
+    if same and total_T(spec) and pattern != "none":
+        # every kernel returns one common code somewhere (same (code, message) pair in several kernels), in
+        # different chains / at different transitions
+        common = rnd.choice(sorted(c for c in books[kernels[0]] if c != 0))
+        ph = phases(spec)
+        ok_t = [t for t in range(total_T(spec)) if pattern not in ("warmup_only", "posterior_only") or ph[t] == (pattern == "posterior_only")]
+        for j, kid in enumerate(kernels):
+            if ok_t:
+                spec["tabs"][kid][C - 1 if pattern == "one_chain" else (j + rnd.randrange(C)) % C][rnd.choice(ok_t)] = common
     if undocumented and total_T(spec):
         kid = kernels[-1]
-        bad = 4 if kind == "engine" else (7 if kid == "ka" else 2)
+        bad = 2 if 2 not in books[kid] else (4 if kind == "engine" else 7)
         spec["tabs"][kid][rnd.randrange(C)][rnd.randrange(total_T(spec))] = bad
     shape = base["stratum"].split("/")[1]
-    spec["stratum"] = f"{kind}/{shape}/{pattern}" + ("/undocumented" if undocumented else "")
+    spec["stratum"] = (f"{kind}/{shape}/{pattern}" + ("/undocumented" if undocumented else "")
+                       + (f"/same-class-x{len(kernels)}" if same else ""))
     return spec
 
 
@@ -745,6 +765,20 @@ def gen_specs(ctx, rnd, offset=0):
         for v in range(per_group):
             specs.append(retable(rnd, base, i, PATTERNS[(gg + 3 * v) % len(PATTERNS)], undocumented=(gg % 5 == 2 and v == per_group - 1)))
             i += 1
+    # several kernels of the SAME class (identical error books) returning the same codes: rows of different kernels then
+    # share (error_code, error_msg, phase); 2-4 chains, two or three kernels
+    same_layouts = [["ka", "kb"], ["kb", "ka", "kc"], ["kc", "ka"]]
+    same_patterns = ["both", "dense", "posterior_only", "one_chain", "boundary", "warmup_only"]
+    n_same, per_same = (3, 3) if quick else (18, 5)
+    for g in range(n_same):
+        gg = g + offset
+        for kind in ("synth", "engine"):
+            base = random_spec(rnd, kind, i, {"shape": SHAPES[(gg + (kind == "engine")) % 4], "chains": [3, 2, 4][gg % 3],
+                                              "kernels": same_layouts[gg % 3], "pattern": "none"}, quick)
+            base["same_book"] = True
+            for v in range(per_same if kind == "synth" else 1):
+                specs.append(retable(rnd, base, i, same_patterns[(gg + 2 * v) % len(same_patterns)]))
+                i += 1
     for e in range(n_engine):
         ee = e + offset
         base = random_spec(rnd, "engine", i, {"shape": SHAPES[ee % len(SHAPES)], "chains": CHAINS[(ee + 1) % len(CHAINS)],
@@ -786,6 +820,9 @@ def features(spec):
         f.append("errors:" + ("warmup+posterior" if w and p else "warmup-only" if w else "posterior-only"))
     f.append(f"chains:{spec['chains']}")
     f.append(f"kernels:{len(spec['kernels'])}")
+    if spec.get("same_book") and len(spec["kernels"]) > 1:
+        shared = set.intersection(*[{x for r in spec["tabs"][k] for x in r if x} for k in spec["kernels"]])
+        f.append("same-class kernels sharing an occurring code" if shared else "same-class kernels, no shared occurring code")
     f.append("posterior-epochs:" + str(sum(1 for t, _, _ in spec["sched"] if t == 4)))
     f.append("warmup-epochs:" + str(min(3, sum(1 for t, _, _ in spec["sched"] if t != 4))) )
     if any(th > 1 and t == 4 for t, _, th in spec["sched"]):
@@ -971,7 +1008,7 @@ def replay(rp) -> int:
     spec = c["spec"]
     case = run_case(spec)
     why = oracle(case)
-    print("schedule (type, duration, thinning):", spec["sched"], "chains:", spec["chains"], "kernels:", spec["kernels"], "kind:", spec["kind"])
+    print("schedule (type, duration, thinning):", spec["sched"], "chains:", spec["chains"], "kernels:", spec["kernels"], "(all of the same class)" if spec.get("same_book") else "", "kind:", spec["kind"])
     for k, tab in spec["tabs"].items():
         print(f"scripted error codes of {k} (chain x transition):", tab)
     if why:
